@@ -176,7 +176,12 @@ def run(ctx):
                   "advance_by does not use the flag_subcmd_skip value saved before the reset (read at %s, reset at %s)" % (rd, zw))
     for fld in ("flag_subcmd_at",):
         w2 = writes_field(ps, fld)
-        res.check(len(w2) >= 1, "R9.5", "at-cleared-when-cluster-done", ps.where(), "flag_subcmd_at cleared when the cluster is exhausted", "flag_subcmd_at never cleared")
+        # the clearing must sit on the path that meets a flag subcommand as the LAST letter of the cluster (is_empty(short_arg) after it):
+        # a resumed cluster inherits a position from its parent, and with nothing left to resume that position must not survive
+        done = [i for i, s_ in w2 if ((s_["rv"]["k"] == "agg" and s_["rv"].get("variant") == "None") or (s_["rv"]["k"] == "use" and "None" in (agg_variants(ps, s_["rv"]["op"]) or [])))
+                and any(re.match(r"^V1:find_short_subcmd\(", g) for g in guard_strs(ps, i)) and any(re.match(r"^T:(is_empty\(short_arg\)|done_short_args)$", g) for g in guard_strs(ps, i))]
+        res.check(len(done) >= 1, "R9.5", "at-cleared-when-cluster-done", ps.where(), "flag_subcmd_at cleared when the flag subcommand is the last letter of its cluster",
+                  "parse_short_arg no longer clears flag_subcmd_at when a flag subcommand ends its cluster: a position inherited by a resumed cluster survives, the parser seeks back and hands the finished cluster to the sub-parser again")
 
     # ---- R9.6 (shared with C08 R8.2b) dispatch by alias: the *_aliases_to siblings consult every alias on every path
     from rules.c08 import alias_siblings
